@@ -84,7 +84,7 @@ class Machine(object):
         self.domain = self.keys["DSA"][0].domain()
 
     def budget(self, tier):
-        return 3600 if tier == "quick" else 150000
+        return 2800 if tier == "quick" else 150000
 
     # ------------------------------------------------------------------ gen
     def gen(self, rng, tier, idx):
